@@ -112,8 +112,8 @@ def run(ck):
         variants += [("hashrandom", "random", False), ("hash777", 777, True)]
     jobs = []
     for name, sc, steps, taps in scen:
-        for gs in ([3] if ck.quick else [3, 11]):
-            spec = {"scenario": sc, "game_seed": gs, "reset_seed": gs + 100, "action_seed": 5, "steps": steps, "episodes": 2, "max_episode_length": steps + 5}
+        for gs in ([3, 0] if ck.quick else [3, 11, 0]):         # 0: a legal seed that is falsy in Python
+            spec = {"scenario": sc, "game_seed": gs, "reset_seed": (gs + 100) if gs else 0, "action_seed": 5, "steps": steps, "episodes": 2, "max_episode_length": steps + 5}
             if taps:
                 spec["tap_starting_nodes"] = taps
             for vname, hs, logging in variants:
